@@ -28,7 +28,8 @@ Three parts (DESIGN §6/C12).
                       `wellFormed` verdict must equal the harness oracle's.
     stream `emit-e2e`: the raw show_error stream recorded while checking the fuzzer's programs, same comparison.
     stream `annot`  : annotation expressions (every ast expression kind) through the real `annotations._Visitor` vs the
-                      Lean model `annVisit` (which node kind raises NotImplementedError first).
+                      Lean model `annVisit`: the visitor must not raise (fix 9c1e869) and must report exactly the model's list
+                      of unsupported node kinds, in order.
 """
 import ast, contextlib, io, json, linecache, os, random, re, signal, sys, time, traceback, types, warnings
 
@@ -197,7 +198,30 @@ def signature_of(description):
     return (m.group(1), "%s::%s" % inner[-1] if inner else "?")
 
 
+_STD_FDS = []
+
+
+def _restore_std_fds():
+    """pyanalyze evaluates quoted / deferred annotations (eval), i.e. it can run code of the checked module; a generated
+    `with open(True): ...` reached that way closes the harness's own stdout. Keep duplicates and put them back."""
+    if not _STD_FDS:
+        for fd in (0, 1, 2):
+            try:
+                _STD_FDS.append(os.dup(fd))
+            except OSError:
+                _STD_FDS.append(None)
+        return
+    for fd, saved in zip((0, 1, 2), _STD_FDS):
+        try:
+            os.fstat(fd)
+        except OSError:
+            if saved is not None:
+                os.dup2(saved, fd)
+
+
 def run_check(src, settings, fresh=False, record=False, cpu=30):
+    if not _STD_FDS:
+        _restore_std_fds()
     """Check `src` with the real pyanalyze. Returns dict(outcome=…, failures=[raw dicts], raw=[…], problems=[…]).
     problems: list of (kind, signature, detail dict) — the property's oracle."""
     with warnings.catch_warnings():
@@ -225,6 +249,7 @@ def run_check(src, settings, fresh=False, record=False, cpu=30):
         res = []
     finally:
         unload(mod)
+        _restore_std_fds()
     problems += diagnostics_oracle(src, res)
     return {"failures": res, "raw": rec, "problems": problems}
 
@@ -723,18 +748,19 @@ KNOWN_CLASSES = [
     # Repaired in /repo and therefore no longer classes (a crash with one of these signatures is a NEW violation; their
     # witnesses stay in corpus/C12.jsonl as regression cases): annotCtorCall 0e3888a, whileOutsideFunction 211255f,
     # classKeywordImplicitAny 3858618, sliceLiteralBounds 97cec89, overloadDetailEllipsis 633bfb7, suggestedTypeOfMetaclass fcd36f7, matchValueNotLiteral 9d3b0d2,
-    # constrainedTypeVarBoolability 67ee234, overloadStarArgs 5bac5ce, versionInfoCompareRaises 8c71858, protocolCacheKeyUnhashable 9d530d5.
+    # constrainedTypeVarBoolability 67ee234, overloadStarArgs 5bac5ce, versionInfoCompareRaises 8c71858, protocolCacheKeyUnhashable 9d530d5,
+    # moduleAnnotationUncaught dd2d4d8, annotatedEmptyArgs 98aa7df, callableParamSpecNotLast c190182, unsupportedAnnotNode 9c1e869.
     # (class, kinds, signature test, syntactic predicate on (tree, lineno, col, detail, ctx))
     ("userCodeRaises", ("internal_error", "raises"), lambda s, d: _user_frames(d), lambda *a: True),
-    ("moduleAnnotationUncaught", ("raises",), lambda s, d: "in build_stacked_scopes" in d.get("description", "") and "in type_from_annotations" in d.get("description", ""),
-     lambda t, ln, col, d, c: any(isinstance(n, ast.AnnAssign) and n.value is not None and isinstance(n.target, ast.Name) for n in t.body)),
-    ("callableParamSpecNotLast", ("internal_error",), lambda s, d: s == ("InvalidSignature", "signature.py::validate"), _p_callable_arglist),
-    ("annotatedEmptyArgs", ("internal_error",), lambda s, d: s == ("ValueError", "annotations.py::_type_from_subscripted_value"), _p_annotated_empty),
-    ("unsupportedAnnotNode", ("internal_error",), lambda s, d: s == ("NotImplementedError", "annotations.py::generic_visit"), _p_annot_kind),
     ("metaclassAttrRecursion", ("internal_error",), lambda s, d: s[0] == "RecursionError" and "has_attribute" in s[1],
      lambda t, ln, col, d, c: any(isinstance(n, ast.Attribute) and ((isinstance(n.value, ast.Attribute) and n.value.attr == "__class__") or
                                                                      (isinstance(n.value, ast.Call) and isinstance(n.value.func, ast.Name) and n.value.func.id == "type"))
                                   for n in _under(t, ln, col))),
+    ("constrainedTypeVarAttribute", ("internal_error",), lambda s, d: s == ("TypeError", "attributes.py::get_attribute") and "unwrap MultiValuedValue" in d.get("tail", ""),
+     _p_typevar_constraints),
+    ("inlineParamSpecRecursion", ("internal_error",), lambda s, d: s[0] == "RecursionError" and "substitute_typevars" in s[1],
+     lambda t, ln, col, d, c: any(isinstance(n, ast.Call) and (getattr(n.func, "id", None) == "ParamSpec" or getattr(n.func, "attr", None) == "ParamSpec")
+                                  for a in annotation_exprs([t]) for n in ast.walk(a))),
     ("newTypeOfNonClass", ("internal_error",), lambda s, d: s == ("AttributeError", "typeshed.py::_get_info_for_name"), _p_newtype_nonclass),
     ("stringAnnotationPosition", ("bad-col", "bad-line"), lambda s, d: True, _p_string_position),
     ("hugeConstantPower", ("timeout",), lambda s, d: True, _p_huge_power),
@@ -1002,16 +1028,26 @@ def gen_ann_src(rng, d=3):
 
 
 def annot_stream(ctx, with_model=True):
+    """Random annotation expressions through the real `annotations._Visitor`: it must never raise (since fix 9c1e869
+    unsupported nodes are reported), and the kinds it reports as unsupported, in order, must be the Lean model's."""
     from pyanalyze import annotations
     ns = _ann_namespace()
+    reported = []
 
     class Ctx(annotations.Context):
         def get_name(self, node):
             return self.get_name_from_globals(node.id, ns)
 
+        def show_error(self, message, error_code=None, node=None):
+            m = re.match(r"Unsupported syntax in annotation: (\w+)", message)
+            if m:
+                reported.append(m.group(1))
+
     rng = ctx.rng
     fixed = ["tuple[int, *tuple[str, ...]]", "tuple[1:2]", "int | str", "int + tuple[1:2]", "~(lambda: 1)", "undef(*int)", "NT('N', *int)", "TV('T', bound=lambda: 1)",
-             "dep('m', *int, category=1)", "dep('m', *int)", "int(lambda: 1)", "NT()", "NT(1, 2, 3)", "TV()", "TV(1)", "TV(obj, mod.C)", "PS(1)", "PS()", "NT('N', int, k=1)", "{**int}", "{int: (yield)}", "mod.NT('N', (q := 1))", "(mod.x)(lambda: 1)", "-(lambda: 1)"]
+             "dep('m', *int, category=1)", "dep('m', *int)", "int(lambda: 1)", "NT()", "NT(1, 2, 3)", "TV()", "TV(1)", "TV(obj, mod.C)", "PS(1)", "PS()", "NT('N', int, k=1)",
+             "{**int}", "{int: (yield)}", "mod.NT('N', (q := 1))", "(mod.x)(lambda: 1)", "-(lambda: 1)", "(lambda: 1, f'{int}', [1 < 2])", "(lambda: 1)[await int]",
+             "(lambda: 1)(f'')", "(lambda: 1).x", "TV('T', (lambda: 1), bound=(1 < 2))"]
     srcs = fixed + [gen_ann_src(rng, rng.choice([1, 2, 2, 3])) for _ in range(ctx.n(600, 8000))]
     cases = []
     for s in srcs:
@@ -1019,36 +1055,30 @@ def annot_stream(ctx, with_model=True):
             body = ast.parse(s, mode="eval").body
         except (SyntaxError, RecursionError, ValueError):
             continue
+        del reported[:]
         try:
             with contextlib.redirect_stderr(io.StringIO()):
                 annotations._Visitor(Ctx()).visit(body)
-            impl = "ok"
-        except NotImplementedError as e:
-            m = re.search(r"no visitor implemented for <ast\.(\w+) ", str(e))
-            impl = "raise:%s" % (m.group(1) if m else "?")
+            impl = ",".join(reported) or "-"
         except Exception as e:
             impl = "EXC:%s" % type(e).__name__
         cases.append((s, aexpr_sexp(body, ns), impl))
     outs = lean.run_driver("C12", ["A " + sx for _, sx, _ in cases]) if with_model and cases else [None] * len(cases)
     for (s, sx, impl), mo in zip(cases, outs):
-        ctx.count(1, annot=1, **{"annot_" + impl.split(":")[0]: 1})
-        if impl != "ok":
+        ctx.count(1, annot=1, **{"annot_" + ("EXC" if impl.startswith("EXC") else "clean" if impl == "-" else "reports"): 1})
+        if impl != "-":
             ctx.nontriv("annot|" + s)
         case = {"stream": "annot", "annotation": s, "aexpr": sx}
-        model = cls = None
+        model = None
         if mo is not None:
-            m = re.match(r"res=(\S+) D=(\S+)$", mo)
-            model, cls = (m.group(1), m.group(2)) if m else (mo, "-")
+            m = re.match(r"res=(\S+) old=(\S+)$", mo)
+            model = m.group(1) if m else mo
             ctx.corr("annot")
             if model != impl:
                 ctx.disagree("annot", case, impl, model)
-            if len([x for x in ctx.samples if isinstance(x, dict) and x.get("stream") == "annot"]) < 1 and impl.startswith("raise"):
-                ctx.sample(dict(case, impl=impl, model=model, D=cls))
-        if impl.startswith("raise"):
-            ctx.candidate(case, "annotations._Visitor raised: %s" % impl, cls=cls if cls not in (None, "-") else None,
-                          conforms=(model is None or model == impl), stream="annot")
-        elif impl.startswith("EXC"):
-            # since fix 0e3888a the NewType / TypeVar / ParamSpec branches report instead of raising: no exception is expected
+            if len([x for x in ctx.samples if isinstance(x, dict) and x.get("stream") == "annot"]) < 1 and impl not in ("-",):
+                ctx.sample(dict(case, impl=impl, model=model, old_visitor=m.group(2) if m else None))
+        if impl.startswith("EXC"):
             ctx.candidate(case, "annotations._Visitor raised: %s" % impl, cls=None, conforms=False, stream="annot")
 
 
@@ -1566,22 +1596,27 @@ def replay(ctx, data):
     elif stream == "value":
         value_stream(ctx, triples=[tuple(totuple(x) for x in case["ops"])])
     elif stream == "annot":
-        ctx.rng = random.Random(0)
         from pyanalyze import annotations
         body = ast.parse(case["annotation"], mode="eval").body
         ns = _ann_namespace()
+        reported = []
 
         class Ctx(annotations.Context):
             def get_name(self, node):
                 return self.get_name_from_globals(node.id, ns)
+
+            def show_error(self, message, error_code=None, node=None):
+                m = re.match(r"Unsupported syntax in annotation: (\w+)", message)
+                if m:
+                    reported.append(m.group(1))
         try:
             annotations._Visitor(Ctx()).visit(body)
-            impl = "ok"
+            impl = ",".join(reported) or "-"
         except Exception as e:
-            impl = "%s: %s" % (type(e).__name__, e)
+            impl = "EXC:%s: %s" % (type(e).__name__, e)
         model = lean.run_driver("C12", ["A " + aexpr_sexp(body, ns)])[0]
         print(json.dumps({"annotation": case["annotation"], "implementation": impl, "model": model}, indent=1))
-        return 0 if impl == "ok" else 1
+        return 0 if model.startswith("res=%s " % impl) else 1
     elif stream == "emit":
         lines, off = case["lines"], case["off"]
         calls = [dict(c, node=None if c["node"] is None else _Node(*c["node"])) for c in case["calls"]]
